@@ -488,13 +488,23 @@ def c04_family(tier):
         fs.append(sink('log0', ['spl;main>logged']))
         out.append(timely(scn(f'balanced-shared-branch/k{k}/S{S}', fs), quiet=S + 800, horizon=S + 1500))
 
+    # no stall at all: a consumer that joins a fast and a very slow independent source takes nothing while it waits for the slow one -
+    # the fast source must not run ahead meanwhile (the waiting consumer repeats its request every poll interval)
+    for p2 in [2500, 1200]:
+        for n3 in [0, 1]:
+            fs = [src(N, 's1', period=20), src(N, 's2', period=p2)] + ([src(N, 's3', period=30)] if n3 else []) + \
+                 [sink('snk', ['s1', 's2;main>other'] + (['s3;main>third'] if n3 else []))]
+            sc = timely(scn(f'join-waits/p{p2}/{2 + n3}src', fs), quiet=10**9, horizon=2 * p2 + 700)
+            sc['c04_waits'] = True
+            out.append(sc)
+
     # stall longer than the connection timeout, consumer not a required output: producer may move on (nothing to check but order)
     for k in [1]:
         out.append(timely(scn(f'oneof2-timeout/k{k}', [src(N, required='other', period=30), sink('snk', ['src'], stall(k, 2500)),
                                                        sink('other', ['src;main>x'])], conn_timeout=1000), quiet=3500, horizon=5000))
 
     for s in out:
-        s['stall'] = True
+        s['stall'] = not s.get('c04_waits')
         s['dev_window'] = (0, 2200 if 'slowstart' in s['name'] else 1300 if 'two-pauses' in s['name'] else 1100)     # deviations are enumerated at every choice point of the first 1100 ms (start-up, stall start, settling)
 
     return out
